@@ -77,35 +77,27 @@ def _compute_thl_try_speciation(
     min_ltr = table.entry()
     min_rtr = table.entry()
 
-    for left_child in left_species.traverse():
-        min_ltl.update(
-            Candidate(
-                table[left_node][left_child].value(),
-                left_child,
-            )
-        )
-        min_rtl.update(
-            Candidate(
-                table[right_node][left_child].value(),
-                left_child,
-            )
+    # Candidates carry the cost of the losses on the branch from
+    # root_species down to the child's species, so that each aggregate
+    # minimizes the actual contribution of that child
+    def below(node, species):
+        return Candidate(
+            table[node][species].value()
+            + loss_cost * (species_lca.distance(root_species, species) - 1),
+            species,
         )
 
+    for left_child in left_species.traverse():
+        min_ltl.update(below(left_node, left_child))
+        min_rtl.update(below(right_node, left_child))
+
     for right_child in right_species.traverse():
-        min_ltr.update(Candidate(table[left_node][right_child].value(), right_child))
-        min_rtr.update(Candidate(table[right_node][right_child].value(), right_child))
+        min_ltr.update(below(left_node, right_child))
+        min_rtr.update(below(right_node, right_child))
 
     def spe_combinator(left, right):
         return Candidate(
-            spe_cost
-            + left.value
-            + right.value
-            + loss_cost
-            * (
-                species_lca.distance(root_species, left.info)
-                + species_lca.distance(root_species, right.info)
-                - 2
-            ),
+            spe_cost + left.value + right.value,
             MappingInfo(left.info, right.info),
         )
 
@@ -137,11 +129,19 @@ def _compute_thl_try_duplication_transfer(
 
     for other_species in species_lca.tree.traverse():
         if species_lca.is_ancestor_of(root_species, other_species):
+            # Losses on the branch from root_species down to other_species
+            below_cost = loss_cost * species_lca.distance(root_species, other_species)
             min_ltc.update(
-                Candidate(table[left_node][other_species].value(), other_species)
+                Candidate(
+                    table[left_node][other_species].value() + below_cost,
+                    other_species,
+                )
             )
             min_rtc.update(
-                Candidate(table[right_node][other_species].value(), other_species)
+                Candidate(
+                    table[right_node][other_species].value() + below_cost,
+                    other_species,
+                )
             )
         elif not species_lca.is_ancestor_of(other_species, root_species):
             min_lts.update(
@@ -154,33 +154,20 @@ def _compute_thl_try_duplication_transfer(
     # Try mapping as a duplication
     def dup_combinator(left, right):
         return Candidate(
-            dup_cost
-            + left.value
-            + right.value
-            + loss_cost
-            * (
-                species_lca.distance(root_species, left.info)
-                + species_lca.distance(root_species, right.info)
-            ),
+            dup_cost + left.value + right.value,
             MappingInfo(left.info, right.info),
         )
 
     # Try mapping as a horizontal transfer
     def hgt_l_combinator(left, right):
         return Candidate(
-            hgt_cost
-            + left.value
-            + right.value
-            + loss_cost * species_lca.distance(root_species, left.info),
+            hgt_cost + left.value + right.value,
             MappingInfo(left.info, right.info),
         )
 
     def hgt_r_combinator(left, right):
         return Candidate(
-            hgt_cost
-            + left.value
-            + right.value
-            + loss_cost * species_lca.distance(root_species, right.info),
+            hgt_cost + left.value + right.value,
             MappingInfo(left.info, right.info),
         )
 
